@@ -55,6 +55,9 @@ func decodeAll(b []byte) string {
 		return "DecodeAddEvent accepted an improper value"
 	}
 	codec.DecodeRemoveEvent(b)
+	if res, _, rerr := codec.DecodeAccessResponse(b); rerr == nil && res == nil {
+		return "DecodeAccessResponse returned neither a result nor an error"
+	}
 	if _, m, _ := codec.DecodeAccessResponse(b); m != nil {
 		m.IsDirectResponseStatus()
 		m.IsValidStatus()
@@ -146,7 +149,7 @@ func FuzzDecoders(f *testing.F) {
 		f.Add([]byte(s))
 	}
 	for _, s := range []string{`{"result":{"model":{"a":1}}}`, `{"result":{"collection":[1,{"rid":"t.a"}]}}`, `{"result":{"events":[null]}}`, `{"result":{"events":[{"event":"change","data":{"values":{"a":1}}}]}}`,
-		`{"error":{"code":"system.notFound","message":"x"}}`, `{"resource":{"rid":"t.a"}}`, `{"meta":{"status":302,"header":{"location":["/x"]}}}`, `{"id":1,"method":"call.t.a.b","params":{"count":1}}`,
+		`{"error":{"code":"system.notFound","message":"x"}}`, `{"resource":{"rid":"t.a"}}`, `{"meta":{"status":302,"header":{"location":["/x"]}}}`, `{"meta":{"status":303}}`, `{"result":null,"meta":{"status":403}}`, `{"id":1,"method":"call.t.a.b","params":{"count":1}}`,
 		`{"id":18446744073709551615,"method":"unsubscribe.t.a","params":{"count":-1}}`, `{"values":{"a":{"action":"delete"}}}`, `{"idx":-1,"value":[]}`, `{"token":null,"tid":5}`} {
 		f.Add([]byte(s))
 	}
